@@ -97,6 +97,7 @@ def check_linear(ctx, case, key, factory, exp):
     ctx.case("adjoint/" + key, facet="adjoint")
     ay, err = _try(lambda: m.adjoint(y))
     adj_refused = err is not None
+    Ad, adj_cls = None, None
     if adj_refused:
         ctx.observations.setdefault("adjoint_refused", {})[key] = repr(err)[:120]
     else:
@@ -112,7 +113,8 @@ def check_linear(ctx, case, key, factory, exp):
             ok = close(ay, exp["adj_y"]) and close(Ad, M.T) and abs(float(fx @ y) - float(x @ ay)) <= 1e-9 * max(1.0, abs(float(fx @ y)))
             if not ok:
                 coded = close(ay, exp["adj_y_coded"]) and (exp["coded_adj_matrix"] is None or close(Ad, exp["coded_adj_matrix"]))
-                ctx.mismatch("adjoint/%s/%s" % (key, "via_fun2par" if coded else "other"), case,
+                adj_cls = "via_fun2par" if coded else "other"
+                ctx.mismatch("adjoint/%s/%s" % (key, adj_cls), case,
                              "adjoint is not the transpose of forward: <Fwd x, y> != <x, Adj y>"
                              + (" (it is the composition fun2par . F* . par2fun)" if coded else ""),
                              {"adj_y": exp["adj_y"], "<Fwd x,y>": float(fx @ y)}, {"adj_y": ay, "<x,Adj y>": float(x @ ay)})
@@ -162,8 +164,8 @@ def check_linear(ctx, case, key, factory, exp):
         if err is not None or not close(tm, M.T):
             if err is None and exp["matrix_backed"] and close(tm, exp["F"].T):
                 cls = "stored"                   # the stored matrix transposed, geometries ignored
-            elif err is None and exp["coded_adj_matrix"] is not None and close(tm, exp["coded_adj_matrix"]):
-                cls = "via_fun2par"              # assembled from a T.forward that equals the coded adjoint
+            elif err is None and adj_cls == "via_fun2par" and Ad is not None and close(tm, Ad):
+                cls = "via_fun2par"              # assembled from a T.forward that equals the model's (coded) adjoint
             elif not exp["matrix_backed"] and tag == "" and _t_forward_is_rewrapped(T, exp):
                 cls = "rewrapped"                # assembled from a T.forward that applies par2fun twice
             else:
